@@ -146,6 +146,12 @@ def _apply_section(sec, head, it, data, s0, e0, what, edits, drop, tags_box, ret
             edits.append(Edit(lp["expr"][0], lp["expr"][0], w[3].rstrip(":") + ": ", "ins:ghost-iter", tl))
         if body.strip():
             edits.append(Edit(lp["body_start"], lp["body_start"], "\n" + body + "\n", "ins:loop", tl))
+    elif kw == "loopbody":
+        k = int(w[1].rstrip(":"))
+        if k >= len(it["loops"]):
+            raise GenError(f"{what}: loop {k} not found (function has {len(it['loops'])} loops)")
+        lp = it["loops"][k]
+        edits.append(Edit(lp["body_start"] + 1, lp["body_start"] + 1, "\n" + body + "\n", "ins:loopbody", tl))
     elif kw in ("before", "after"):
         m = ANCH.search(head)
         if not m:
